@@ -18,6 +18,8 @@ stack node vocabulary (every node builds one dataset object of the repository, o
 top  {"k": "mode", "mode": "x"|..., "return_ctx": bool, "cform": "compose"|"single"|"wrapper", "child": node}
      {"k": "interleaved", "batch_size": B, "children": [mode-node...]}   InterleavedSampler(...).dataset
 collator nodes   {"c": "draw"} harness collator publishing its draw | {"c": "mix", "kw": {...}} KDMixCollator
+                 {"c": "compose", "members": [cnode...], "mode": m} KDComposeCollator / {"c": "wrapper", "member": cnode, "mode": m}
+                 KDSingleCollatorWrapper registered on the root (mode node: "cform": "direct")
 transform nodes  h07 nodes, plus {"t": "probe", "tag": str} / {"t": "semseg_probe", "tag": str}
 """
 from __future__ import annotations
@@ -303,6 +305,12 @@ def build_collator(c):
     if c["c"] == "mix":
         from kappadata.collators import KDMixCollator
         return KDMixCollator(**c["kw"])
+    if c["c"] == "compose":      # a composite registered on the root: only forwards set_rng to its members
+        from kappadata.collators import KDComposeCollator
+        return KDComposeCollator([build_collator(m) for m in c["members"]], dataset_mode=c["mode"], return_ctx=c.get("return_ctx", False))
+    if c["c"] == "wrapper":
+        from kappadata.collators.base.kd_single_collator_wrapper import KDSingleCollatorWrapper
+        return KDSingleCollatorWrapper(build_collator(c["member"]), dataset_mode=c["mode"], return_ctx=c.get("return_ctx", False))
     raise ValueError(c)
 
 
@@ -378,7 +386,9 @@ def _collate_for(ds, node, ship=False):
     inner = None
     if len(cols) > 0:
         cform = node.get("cform", "compose")
-        if cform == "single" and len(cols) == 1:
+        if cform == "direct":       # the registered collator is itself a complete collate function (composite)
+            inner = cols[0]
+        elif cform == "single" and len(cols) == 1:
             cols[0].dataset_mode, cols[0].return_ctx = node["mode"], node.get("return_ctx", False)
             inner = cols[0]
         elif cform == "wrapper" and len(cols) == 1:
